@@ -6,7 +6,10 @@
 //!   ["lf"]           ListenerFail         the next accept fails
 //!   ["a",c,"hex"]    Arrive c bytes       bytes become readable on c
 //!   ["c",c]          CloseRead c          end of stream on c
-//!   ["fr",c]         FailRead c           read error on c
+//!   ["fr",c]         FailRead c           read error on c (Error::SocketRead, once)
+//!   ["fr",c,kind,p]  ... Error::Io(io::Error::from(kind)); p = 1: every further read fails the same way
+//!   ["deep",c,depth,open,pfirst]  Arrive: one well-framed Echo call whose `v` is nested `depth` levels deep
+//!                                        (open = "[" or "{\"a\":"), "parameters" before "method" when pfirst = 1
 //!   ["fw",c,k]       FailWrite c k        the k-th write call (0-based) on c fails (Error::SocketWrite)
 //!   ["fw",c,k,kind]  ... with Error::Io(io::Error::from(kind)): Interrupted, WouldBlock, TimedOut, BrokenPipe,
 //!                                        ConnectionReset, UnexpectedEof, Other
@@ -68,6 +71,7 @@ impl tracing::Subscriber for Everything {
 // dead connection) or a case that takes too long stops the run with a panic carrying the reason; main
 // reports it as {"panic":true,"why":..} and the check turns it into a VIOLATION with the case as replay.
 const MAX_ITERATIONS_PER_POLL: u64 = 20_000; // accept is polled once per loop iteration
+const MAX_READS_PER_POLL: u64 = 200_000; // a 100 MiB message read in 256-byte steps stays far below
 const MAX_EOF_READS: u64 = 8; // a correct server reads end-of-stream once per connection
 const MAX_CASE_MILLIS: u128 = 10_000;
 thread_local! {
@@ -108,9 +112,28 @@ fn budget_tick() {
 }
 
 // ---------------------------------------------------------------- sockets
+/// The error a scripted transport fails with: zlink's own SocketRead/SocketWrite for "", else
+/// Error::Io(io::Error::from(kind)).
+fn io_error(kind: &str, read: bool) -> zlink_core::Error {
+    use std::io::ErrorKind as K;
+    let k = match kind {
+        "" => return if read { zlink_core::Error::SocketRead } else { zlink_core::Error::SocketWrite },
+        "Interrupted" => K::Interrupted,
+        "WouldBlock" => K::WouldBlock,
+        "TimedOut" => K::TimedOut,
+        "BrokenPipe" => K::BrokenPipe,
+        "ConnectionReset" => K::ConnectionReset,
+        "UnexpectedEof" => K::UnexpectedEof,
+        _ => K::Other,
+    };
+    zlink_core::Error::Io(std::io::Error::from(k))
+}
 #[derive(Debug, Default)]
 struct SockState {
     evs: VecDeque<Ev>,
+    /// for every Ev::Fail in `evs`, in order: (io::ErrorKind name or "" for Error::SocketRead, persistent)
+    fail_kinds: VecDeque<(String, bool)>,
+    reads_this_poll: u64,
     wcnt: u64,
     wfail: Vec<u64>,
     /// io::ErrorKind of a failing write (by write index); absent = Error::SocketWrite
@@ -143,6 +166,10 @@ impl ReadHalf for SockR {
         let sh = self.0.clone();
         std::future::poll_fn(move |_cx| {
             let mut s = sh.borrow_mut();
+            s.reads_this_poll += 1;
+            if s.reads_this_poll > MAX_READS_PER_POLL {
+                panic!("BUDGET: more than {MAX_READS_PER_POLL} reads on one connection inside one poll of Server::run");
+            }
             if buf.is_empty() {
                 return Poll::Ready(Ok(0));
             }
@@ -163,7 +190,19 @@ impl ReadHalf for SockR {
                     }
                     Poll::Ready(Ok(0))
                 }
-                Some(Ev::Fail) => Poll::Ready(Err(zlink_core::Error::SocketRead)),
+                Some(Ev::Fail) => {
+                    let (kind, persistent) = s.fail_kinds.front().cloned().unwrap_or_default();
+                    if persistent {
+                        s.evs.push_front(Ev::Fail);
+                        s.eof_reads += 1;
+                        if s.eof_reads > MAX_EOF_READS {
+                            panic!("BUDGET: the server keeps reading a dead connection (its read already failed {MAX_EOF_READS} times with {kind})");
+                        }
+                    } else {
+                        s.fail_kinds.pop_front();
+                    }
+                    Poll::Ready(Err(io_error(&kind, true)))
+                }
                 Some(Ev::Data(d)) => {
                     if d.is_empty() {
                         s.evs.push_front(Ev::Data(d));
@@ -208,18 +247,9 @@ impl WriteHalf for SockW {
             }
             if s.wfail.contains(&k) {
                 tr.borrow_mut().push(vec![4, c]);
-                use std::io::ErrorKind as K;
-                let err = match s.wkind.get(&k).map(|x| x.as_str()) {
+                let err = match s.wkind.get(&k) {
                     None => zlink_core::Error::SocketWrite,
-                    Some(kind) => zlink_core::Error::Io(std::io::Error::from(match kind {
-                        "Interrupted" => K::Interrupted,
-                        "WouldBlock" => K::WouldBlock,
-                        "TimedOut" => K::TimedOut,
-                        "BrokenPipe" => K::BrokenPipe,
-                        "ConnectionReset" => K::ConnectionReset,
-                        "UnexpectedEof" => K::UnexpectedEof,
-                        _ => K::Other,
-                    })),
+                    Some(kind) => io_error(kind, false),
                 };
                 Poll::Ready(Err(err))
             } else {
@@ -572,6 +602,25 @@ fn run_case(case: &Value) -> Value {
                     s.borrow_mut().evs.push_back(Ev::Data(d));
                 }
             }
+            "deep" => {
+                if let Some(s) = sock(1) {
+                    let (c, depth) = (num(&a[1]), num(&a[2]) as usize);
+                    let open = a[3].as_str().unwrap();
+                    let close = if open.starts_with('[') { "]" } else { "}" };
+                    let v = format!("{}1{}", open.repeat(depth), close.repeat(depth));
+                    let params = format!("\"parameters\":{{\"c\":{c},\"t\":999999,\"v\":{v}}}");
+                    let method = "\"method\":\"org.zv.Echo\"";
+                    let frame = if num(&a[4]) == 1 {
+                        format!("{{{params},{method}}}")
+                    } else {
+                        format!("{{{method},{params}}}")
+                    };
+                    let mut d = frame.into_bytes();
+                    d.push(0);
+                    payloads.entry(c).or_default().extend_from_slice(&d);
+                    s.borrow_mut().evs.push_back(Ev::Data(d));
+                }
+            }
             "c" => {
                 if let Some(s) = sock(1) {
                     s.borrow_mut().evs.push_back(Ev::Eof);
@@ -579,7 +628,11 @@ fn run_case(case: &Value) -> Value {
             }
             "fr" => {
                 if let Some(s) = sock(1) {
-                    s.borrow_mut().evs.push_back(Ev::Fail);
+                    let kind = a.get(2).and_then(|k| k.as_str()).unwrap_or("").to_string();
+                    let persistent = a.get(3).and_then(|p| p.as_u64()).unwrap_or(0) == 1;
+                    let mut s = s.borrow_mut();
+                    s.evs.push_back(Ev::Fail);
+                    s.fail_kinds.push_back((kind, persistent));
                 }
             }
             "fw" => {
@@ -602,6 +655,9 @@ fn run_case(case: &Value) -> Value {
             "se" => squeue.borrow_mut().push((num(&a[1]), SEv::End)),
             "p" => {
                 budget_reset_poll();
+                for sk in socks.borrow().values() {
+                    sk.borrow_mut().reads_this_poll = 0;
+                }
                 GATE_PENDS.with(|g| g.set(0));
                 let mut pending = false;
                 if let Some(f) = fut.as_mut() {
@@ -666,6 +722,9 @@ fn run_case(case: &Value) -> Value {
     let mut strs: Vec<String> = Vec::new();
     for p in payloads.values() {
         for seg in p.split(|b| *b == 0) {
+            if seg.len() > 65536 {
+                continue; // no oracle for huge frames (production-limit classes compare runs with each other)
+            }
             let k = hex(seg);
             if !segs.contains_key(&k) {
                 segs.insert(k, decode_oracle(seg, &mut strs));
